@@ -21,9 +21,11 @@ InitialFiles == {Absent} \cup {f \in {MkFile(ls, b) : ls \in SeqsUpTo(MaxLines),
 
 NoCmd == [name |-> "none", old |-> Absent, new |-> Absent, exit |-> 0]
 
+(* a temporary may already lie around when the modelled window starts (an earlier run killed while the file had other content) *)
+StaleTmp == MkFile(<< <<"FOR2">>, <<"HASH", "TXT">>, <<"FOR2">>, <<"FOR2">>, <<"FOR2">> >>, TRUE)
 Init == /\ disk \in InitialFiles
-        /\ tmp = Absent /\ pc = "idle" /\ cmd = NoCmd /\ exit = -1 /\ out = "none"
-        /\ hist = << [c |-> "init", exit |-> 0, disk |-> disk, out |-> "none"] >>
+        /\ tmp \in {Absent, StaleTmp} /\ pc = "idle" /\ cmd = NoCmd /\ exit = -1 /\ out = "none"
+        /\ hist = << [c |-> "init", exit |-> 0, disk |-> disk, out |-> IF tmp = Absent THEN "none" ELSE "stale-tmp"] >>
 
 Finish(c, newdisk) ==
     /\ pc' = "idle" /\ cmd' = NoCmd /\ exit' = c.exit /\ disk' = newdisk /\ tmp' = Absent
@@ -48,14 +50,22 @@ Status  == /\ pc = "idle" /\ Len(hist) <= MaxSteps
 TruncOpen  == pc = "start"   /\ disk' = Empty   /\ pc' = "trunc"   /\ UNCHANGED <<tmp, cmd, exit, out, hist>>
 TruncWrite == pc = "trunc"   /\ Finish(cmd, cmd.new) /\ UNCHANGED out
 (* repaired protocol: open tmp, write, fsync, close, rename *)
-TmpOpen    == pc = "tmpstart"   /\ tmp' = Empty   /\ pc' = "tmpopen"    /\ UNCHANGED <<disk, cmd, exit, out, hist>>
-TmpWrite   == pc = "tmpopen"    /\ tmp' = cmd.new /\ pc' = "tmpwritten" /\ UNCHANGED <<disk, cmd, exit, out, hist>>
+(* a temporary left behind by an earlier, killed run (Restart below) must not matter: the open truncates it. Without truncation the new content *)
+(* only overwrites the beginning and the stale tail survives (Overlay, line-level)                                                              *)
+Overlay(new, stale) ==
+    IF stale = Absent \/ new = Absent \/ Len(stale.lines) <= Len(new.lines) THEN new
+    ELSE MkFile(new.lines \o SubSeq(stale.lines, Len(new.lines) + 1, Len(stale.lines)), stale.nl)
+TmpOpen    == pc = "tmpstart"   /\ tmp' = (IF TmpTrunc \/ tmp = Absent THEN Empty ELSE tmp) /\ pc' = "tmpopen" /\ UNCHANGED <<disk, cmd, exit, out, hist>>
+TmpWrite   == pc = "tmpopen"    /\ tmp' = (IF TmpTrunc THEN cmd.new ELSE Overlay(cmd.new, tmp)) /\ pc' = "tmpwritten" /\ UNCHANGED <<disk, cmd, exit, out, hist>>
 TmpSync    == pc = "tmpwritten" /\ pc' = "tmpsynced" /\ UNCHANGED <<disk, tmp, cmd, exit, out, hist>>
 Rename     == pc = "tmpsynced"  /\ Finish(cmd, tmp) /\ UNCHANGED out
 (* the process is killed, or a write-type call fails and the command gives up *)
 Crash      == pc \notin {"idle", "dead"} /\ pc' = "dead" /\ UNCHANGED <<disk, tmp, cmd, exit, out, hist>>
 
-Next == Enable \/ Disable \/ Status \/ TruncOpen \/ TruncWrite \/ TmpOpen \/ TmpWrite \/ TmpSync \/ Rename \/ Crash
+(* after a crash the administrator simply runs the tool again: whatever the killed run left (disk, stale temporary) is the new starting point *)
+Restart    == pc = "dead" /\ pc' = "idle" /\ cmd' = NoCmd /\ UNCHANGED <<disk, tmp, exit, out, hist>>
+
+Next == Enable \/ Disable \/ Status \/ TruncOpen \/ TruncWrite \/ TmpOpen \/ TmpWrite \/ TmpSync \/ Rename \/ Crash \/ Restart
 Spec == Init /\ [][Next]_vars
 
 -----------------------------------------------------------------------------
@@ -100,6 +110,13 @@ DisableKeepsOthers ==
     pc = "idle" => LET o == Content(disk) IN LET d == ImplDisable(disk) IN
         AllLibs(Content(d.file).lines) \in {AllLibs(o.lines), RemoveFirst(AllLibs(o.lines), "OWN")}
 
+(* every finished command of the history satisfies the contract with respect to the file it started from -- also when it ran after a crash, *)
+(* with a stale temporary lying around                                                                                                       *)
+HistoryRefinesContract ==
+    \A i \in 2..Len(hist) :
+        LET r == hist[i]  before == hist[i-1].disk IN
+        /\ r.c = "enable"  => EnableOK(before, r.disk, r.exit)
+        /\ r.c = "disable" => DisableOK(before, r.disk, r.exit)
 (* C20: in every state -- also after a crash -- the file holds the complete old or new content *)
 OldOrNew == pc # "idle" => Content(disk) \in {Content(cmd.old), Content(cmd.new)}
 =============================================================================
